@@ -14,7 +14,7 @@ class C01(Prop):
             "(version, suite) pair once; non-trivial = at least one application record with >0 bytes was sent; "
             "distinct = distinct spec digests")
     reach = ["record_spans_3_segments", "three_records_one_segment", "one_byte_segments", "len_0", "len_16384",
-             "cbc_extra_padding", "tls13_padding", "tls13_no_hs_secrets", "etm", "resume", "sh_no_ext", "tickets",
+             "cbc_extra_padding", "tls13_padding", "tls13_no_hs_secrets", "etm", "resume", "resumption_shares_master_secret", "sh_no_ext", "tickets",
              "ipv6", "seq_wrap_in_conn", "merge_first", "multi_conn"]
 
     def plan(self, tier):
@@ -34,6 +34,9 @@ class C01(Prop):
         for j in range(nconn):
             pair = pairs[idx] if (idx < len(pairs) and j == 0) else None
             c = gen.gen_tls_conn(R.fork("conn", j), j, cfg, used, pair=pair)
+            if conns and R.chance(35):
+                if gen.make_resumption_of(R.fork("resume", j), c, R.choice(conns)):
+                    pass
             if R.chance(75):
                 apply_segmentation(R.fork("seg", j), c)
             conns.append(c)
@@ -83,6 +86,8 @@ class C01(Prop):
                 out.count("reach:etm")
             if conn.get("resume"):
                 out.count("reach:resume")
+            if conn.get("resumes") is not None:
+                out.count("reach:resumption_shares_master_secret")
             if conn.get("sh_ext") == "none":
                 out.count("reach:sh_no_ext")
             if conn.get("tickets") and conn["ver"] == T.TLS13:
